@@ -528,4 +528,10 @@ def verifyMomentum (s : VState) (now : Int) (m : Momentum) (blocks : List PBlock
       if !o.vmOk then .error .vmFailed
       else runAll (txCheck s m o) Gen.MV_tx_all
 
+/-- `momentumPool.AddMomentumTransaction` → `ldbManager.Add` as far as the frontier is concerned: the commit is
+    applied iff its `Previous()` is the manager's current frontier identifier; otherwise nothing is written (the
+    call returns nil). Frontier = (hash, height). -/
+def addMomentum (frontier : Bytes × Nat) (m : Momentum) : Bytes × Nat :=
+  if m.prevHash = frontier.1 ∧ prevHeight m = frontier.2 then (m.hash, m.height) else frontier
+
 end ZV.Consensus
